@@ -152,4 +152,39 @@ MUTANTS = [
     M("vi-fullcov", VI, "cov = chol_cov @ chol_cov.T", "cov = chol_cov.T @ chol_cov", ["C17"]),
     M("vi-estimator-swap", VI, "    if gradient_estimator == \"reparam\":\n        mvnormal_fn = multivariate_normal_reparam\n    elif gradient_estimator == \"reinforce\":\n        mvnormal_fn = multivariate_normal_reinforce\n    else:\n        raise ValueError(f\"Unknown gradient estimator: {gradient_estimator}\")\n\n    @gen\n    def variational_family(constraint, params):\n        \"\"\"\n        Mean-field",
       "    if gradient_estimator == \"reparam\":\n        mvnormal_fn = multivariate_normal_reinforce\n    elif gradient_estimator == \"reinforce\":\n        mvnormal_fn = multivariate_normal_reparam\n    else:\n        raise ValueError(f\"Unknown gradient estimator: {gradient_estimator}\")\n\n    @gen\n    def variational_family(constraint, params):\n        \"\"\"\n        Mean-field", ["C17"]),
+    # ---------------- pjax: seed / keys
+    M("seed-reuse-key-sample", PJAX, "                self.key, sub_key = jrand.split(self.key)\n                outvals = flat_keyful_sampler(sub_key, *args, **inner_params)", "                sub_key = self.key\n                outvals = flat_keyful_sampler(sub_key, *args, **inner_params)", ["C07", "C06"]),
+    M("seed-sample-uses-selfkey", PJAX, "outvals = flat_keyful_sampler(sub_key, *args, **inner_params)", "outvals = flat_keyful_sampler(self.key, *args, **inner_params)", ["C07"]),
+    M("seed-scan-nofold", PJAX, "sub_key = jrand.fold_in(key, idx)\n                    outs = seed(body_fun)(sub_key, *all_values)", "sub_key = key\n                    outs = seed(body_fun)(sub_key, *all_values)", ["C07"]),
+    M("seed-scan-carry-subkey", PJAX, "return (key, out_carry), out_scan", "return (sub_key, out_carry), out_scan", ["C07"]),
+    M("seed-scan-nosplit", PJAX, "                self.key, sub_key = jrand.split(self.key)\n                fold_idxs = jnp.arange(length)", "                sub_key = self.key\n                fold_idxs = jnp.arange(length)", ["C07"]),
+    M("seed-cond-nosplit", PJAX, "                branch_closed_jaxprs = params[\"branches\"]\n                self.key, sub_key = jrand.split(self.key)", "                branch_closed_jaxprs = params[\"branches\"]\n                sub_key = self.key", ["C07"]),
+    M("seed-cond-unseeded", PJAX, "                    seed(jex.core.jaxpr_as_fun(branch))\n                    for branch in branch_closed_jaxprs", "                    (lambda k, *a, _f=jex.core.jaxpr_as_fun(branch): _f(*a))\n                    for branch in branch_closed_jaxprs", ["C07", "C06"]),
+    M("seed-sample-rebind", PJAX, "                outvals = flat_keyful_sampler(sub_key, *args, **inner_params)\n", "                outvals = eqn.primitive.bind(*args, **params)\n", ["C06"]),
+    M("seed-drop-adev", PJAX, "            if primitive in (sample_p, adev_sample_p):\n                invals = safe_map(env.read, eqn.invars)", "            if primitive in (sample_p,):\n                invals = safe_map(env.read, eqn.invars)", ["C06", "C14"]),
+    M("seed-stored-interp", PJAX, "        interpreter = Seed(key)\n        return interpreter.eval(", "        interpreter = _SEEDS.setdefault(id(f), Seed(key))\n        return interpreter.eval(", ["C06"]),
+    M("counter-elsewhere", PJAX, "        flat_keyful_sampler = flat_cache.get_flat_sampler(*args, **kwargs)\n", "        flat_keyful_sampler = flat_cache.get_flat_sampler(*args, **kwargs)\n        global_counter.count += 1\n", ["C06"]),
+    M("fakekey-as-const", PJAX, "            flat_sampler, _ = self._make_flat(keyful_with_shape)(\n                _fake_key, *args, **kwargs\n            )", "            flat_sampler, _ = self._make_flat(partial(keyful_with_shape, _fake_key))(\n                *args, **kwargs\n            )", ["C06"]),
+    # ---------------- pjax: vmap
+    M("vmap-outer-dim", PJAX, "        elif axis_size:\n            return (axis_size,)  # Need to add batch dimension", "        elif axis_size:\n            return ()  # Need to add batch dimension", ["C07", "C08"]),
+    M("vmap-outaxes-none", PJAX, "out_axes = (0 if n or axis_size else None,)\n        return (result,), out_axes", "out_axes = (0 if n else None,)\n        return (result,), out_axes", ["C07", "C08"]),
+    M("vmap-shape-order", PJAX, "new_sample_shape = outer_batch_dim + self.config.sample_shape", "new_sample_shape = self.config.sample_shape + outer_batch_dim", ["C07", "C08"]),
+    M("vmap-nostrip-axes", PJAX, "batch_axes = tuple(batch_axes[1:])", "batch_axes = tuple(batch_axes)", ["C08"]),
+    M("vmap-abstract-strip", PJAX, "flat_avals = flat_avals[1:]  # ignore dummy", "flat_avals = flat_avals[2:]  # ignore dummy", ["C08"]),
+    M("vmap-dummy-axes", PJAX, "            in_axes=(0, in_axes),\n            axis_size=axis_size,", "            in_axes=(None, in_axes),\n            axis_size=axis_size,", ["C08"]),
+    M("withshape-drop-params", PJAX, "            primitive_params=dict(self.primitive_params),\n        )\n\n    def get_keyful", "        )\n\n    def get_keyful", ["C07"]),
+    M("keyless-noshape", PJAX, "self._keyful_with_shape = config.get_keyful_sampler_with_shape()", "self._keyful_with_shape = config.keyful_sampler", ["C07"]),
+    M("ld-batch-axes-tree", PJAX, "batch_tree = jtu.tree_unflatten(params[\"in_tree\"], batch_axes[num_consts:])", "batch_tree = jtu.tree_unflatten(params[\"in_tree\"], batch_axes)", ["C08"]),
+    M("ld-batch-outaxes", PJAX, "out_axes = (0 if n else None,)\n            return outvals, out_axes", "out_axes = (0,)\n            return outvals, out_axes", ["C08"]),
+    M("wrap-sampler-nopop", PJAX, "        if \"sample_shape\" in kwargs:\n            kwargs.pop(\"sample_shape\")\n", "", ["C07"]),
+    M("tfp-sampler-noshape", CORE, "return d.sample(seed=key, sample_shape=sample_shape)", "return d.sample(seed=key)", ["C07"]),
+    M("tfp-logpdf-args", CORE, "    def logpdf(v, *args, **kwargs):\n        d = dist(*args, **kwargs)", "    def logpdf(v, *args, **kwargs):\n        d = dist(*args)", ["C07"]),
+    # ---------------- pjax: lowering
+    M("lower-flag-off", PJAX, "enforce_lowering_exception = True", "enforce_lowering_exception = False", ["C14"]),
+    M("lower-warning-on", PJAX, "\nlowering_warning = False", "\nlowering_warning = True", ["C14"]),
+    M("lower-guard-inverted", PJAX, "elif \"lowering_exception\" in params and enforce_lowering_exception:", "elif \"lowering_exception\" not in params and enforce_lowering_exception:", ["C14"]),
+    M("bind-no-exception", PJAX, "            lowering_exception=lowering_exception,\n", "", ["C14"]),
+    M("ppp-lowering-noparams", PJAX, "return self.prim.lowering(*args, **self.params, **params)", "return self.prim.lowering(*args, **params)", ["C14"]),
+    M("batch-plain-vmap-ok", PJAX, "                raise NotImplementedError(\"Only modular_vmap context supported\")", "                return self._handle_modular_vmap((None, *vector_args), (None, *batch_axes), axis_size=None, **params)", ["C14"]),
+    M("mvmap-drop-params", PJAX, "                    ctx=\"modular_vmap\",\n                    **params,\n                )", "                    ctx=\"modular_vmap\",\n                )", ["C14", "C08"]),
 ]
